@@ -18,13 +18,17 @@ def solve_cases(draw):
     else:
         model = draw(models.cvx_models(allow_infeasible=True, max_n=4))
         method = draw(st.sampled_from(NLP_METHODS + ["SLSQP", "auto"]))
-    return {"model": model, "method": method}
+    return {"model": model, "method": method,
+            "edit": draw(st.sampled_from([None, None, "tighten-ub", "tighten-lb"])),
+            "param_con": draw(st.sampled_from([None, None, None, "true", "false"])) if fam == "cvx" else None}
 
 
 def sample_repr(case):
     d = models.describe(case["model"])
     d["method"] = case["method"]
     d["family"] = case["model"]["family"]
+    d["edit"] = case.get("edit")
+    d["param_con"] = case.get("param_con")
     return d
 
 
